@@ -227,7 +227,10 @@ def scan_loop_table(t):
                 return "next"
             raise _Unknown("statement %s" % T.show(x)[:80])
         out = ex(body)
-        return out, tuple(st["pushed"]), st["consumed"], tuple(sorted(st["flags"].items()))
+        # `buf.push(c); it.next();` with c the peeked character: exactly one character is consumed in the iteration, so the
+        # character pushed *is* the consumed one
+        pushed = [ch if (isinstance(p_, str) and p_ == "unconsumed:%s" % ch and st["consumed"] == 1) else p_ for p_ in st["pushed"]]
+        return out, tuple(pushed), st["consumed"], tuple(sorted(st["flags"].items()))
     table = {}
     init = tuple(sorted(flags0.items()))
     todo, seen = [init], {init}
@@ -401,6 +404,13 @@ def check_literals(run, m, tag):
                "%s a literal continues over ASCII digits%s only (no sign, no exponent letter)" % (tag, " and '.'" if want_dot else ""), w, str(chars))
     # every consumed character is pushed, unconditionally within the character-class test; nothing else feeds the buffer
     okloop, why = scan_loop_discipline(t)
+    if not okloop and tbl is not None and okt:
+        # the table already says it: an accepted character is consumed once and pushed, every other cell consumes and pushes nothing;
+        # what remains is that there is one buffer
+        lps = [s_ for s_ in subterms(t) if isinstance(s_, tuple) and s_ and s_[0] == "loop"]
+        targets = {s_[2] for lp_ in lps for s_ in subterms(lp_) if isinstance(s_, tuple) and len(s_) == 4 and s_[0] == "call" and s_[1] == "String::push"}
+        if len(lps) == 1 and len(targets) == 1:
+            okloop, why = True, ""
     run.ob(okloop, "literal-loop|%s|digit" % ev, "%s the scanner pushes every character it consumes (and nothing else) into the literal text" % tag, w, why)
     okpay, why = payload_discipline(t, {"Token::Num"})
     run.ob(okpay, "literal-payload|%s|digit" % ev, "%s the token's value is the converter's result on the scanned text and nothing else" % tag, w, why)
